@@ -5,5 +5,6 @@ CONSTANTS NClasses = 1
  RunCode = TRUE
  ZeroK = FALSE
  WithU = TRUE
+ DiffForms = FALSE
 INVARIANT Emit
 CHECK_DEADLOCK FALSE
